@@ -80,15 +80,12 @@ mutual
           | none => attrs
           | some items => applyPyAttrs env attrs items
         .start t (evalAttrs env attrib) :: (expectedList env kids ++ [.end_ t])
-    | .loop e kids => expectedLoop env (itemsOf (evalV env e)) kids
+    | .loop e kids => (itemsOf (evalV env e)).flatMap fun x => expectedList (x :: env) kids
     | .bind a kids => expectedList (evalAtom env a :: env) kids
     | .cond b kids => if b then expectedList env kids else []
   def expectedList (env : Env) : List Node → List Ev
     | [] => []
     | n :: ns => expectedNode env n ++ expectedList env ns
-  def expectedLoop (env : Env) : List Scalar → List Node → List Ev
-    | [], _ => []
-    | x :: xs, kids => expectedList (x :: env) kids ++ expectedLoop env xs kids
 end
 
 end Genshi.Subst
